@@ -382,7 +382,17 @@ def check(model, rep, tier):
   vd = cls.methods.get('_visit_arg_declarations')
   src = core.norm(vd.node)
   kinds = ['posonlyargs', 'args', 'vararg', 'kwonlyargs', 'kwarg']
-  miss = [k for k in kinds if ('node.args.%s = ' % k) not in src]
+
+  def args_expr(fi_):
+    """the expression denoting the ast.arguments object inside fi_: `<param>.args`
+    when the body reads that, the first parameter itself otherwise"""
+    p0 = fi_.params()[0]
+    txt = core.norm(fi_.node)
+    if (p0 + '.args.') in txt:
+      return p0 + '.args'
+    return p0
+  ax = args_expr(vd)
+  miss = [k for k in kinds if ('%s.%s = ' % (ax, k)) not in src]
   rep.check(not miss, 'PARAMS', '%s:five-kinds' % vd.site,
             'parameter kinds %s are not visited: those parameters are not '
             'recorded as bound' % miss, line=vd.node.lineno,
@@ -391,8 +401,9 @@ def check(model, rep, tier):
   g = pycfg.CFG(vaa.node)
   flag = [i for i, (k, a) in enumerate(g.nodes) if isinstance(a, ast.Assign) and
           core.norm(a) == 'self._track_annotations_only = True']
+  axa = args_expr(vaa)
   dflt = [i for i, (k, a) in enumerate(g.nodes) if isinstance(a, ast.Assign) and
-          core.norm(a.targets[0]) in ('node.args.defaults', 'node.args.kw_defaults')]
+          core.norm(a.targets[0]) in (axa + '.defaults', axa + '.kw_defaults')]
   ok = len(flag) == 1 and len(dflt) == 2
   if ok:
     dom = g.dominators(skip_labels=('exc',))
@@ -404,11 +415,18 @@ def check(model, rep, tier):
             line=vaa.node.lineno, witness='def apply(x=1, *, k=scale): ...')
   for hname in ('visit_FunctionDef', 'visit_Lambda'):
     h = cls.methods[hname]
-    body = [core.norm(s) for s in ast.walk(h.node) if isinstance(s, (ast.Assign, ast.Expr))]
+    # calls in program order (whether their value is kept is immaterial: the
+    # helpers work on the node in place)
+    hp_ = h.params()[0]
+    seq = [core.norm(c) for c in core.preorder(h.node) if isinstance(c, ast.Call)]
     try:
-      i_ann = body.index('node = self._visit_arg_annotations(node)')
-      i_iso = [i for i, b in enumerate(body) if b.startswith('self._enter_scope(True')][0]
-      i_decl = body.index('node = self._visit_arg_declarations(node)')
+      i_ann = [i for i, b in enumerate(seq) if b in (
+          'self._visit_arg_annotations(%s)' % hp_,
+          'self._visit_arg_annotations(%s.args)' % hp_)][0]
+      i_iso = [i for i, b in enumerate(seq) if b.startswith('self._enter_scope(True')][0]
+      i_decl = [i for i, b in enumerate(seq) if b in (
+          'self._visit_arg_declarations(%s)' % hp_,
+          'self._visit_arg_declarations(%s.args)' % hp_)][0]
       ok = i_ann < i_iso < i_decl
     except (ValueError, IndexError):
       ok = False
